@@ -53,20 +53,21 @@ func (f rtFunc) RoundTrip(r *http.Request) (*http.Response, error) { return f(r)
 var baseURL, _ = url.Parse("http://verif.test/")
 
 type c14Case struct {
-	Mode      string // "forward" | "fallback"
-	Code      uint32 // forward: gRPC code returned by the handler
-	Msg       string
-	Cancelled bool   // forward: request context already cancelled
-	Timeout   string `json:",omitempty"` // forward: GRPC-Timeout header of the request (e.g. "1n": the handler's own deadline passes, the request lives on)
-	OKErr     bool   `json:",omitempty"` // forward: the handler returns a non-nil error whose gRPC status says OK
-	Wrapped   bool   `json:",omitempty"` // forward: the handler adds context to its status error with %w
-	RespToo   bool   `json:",omitempty"` // forward: the failing handler returns a response value next to its error
-	MDOpts    bool   `json:",omitempty"` // forward: the caller asks for response metadata (grpc.Header and grpc.Trailer call options)
-	Renderer  string // "default" | "nothing" | "teapot" | "option-default"
-	Carrier   string // "server" | "mux"
-	HTTP      int    // fallback: HTTP status
-	Stream    bool   // fallback: through NewStream instead of Invoke
-	Body      string // fallback: what the proxy-like reply carries ("empty","text")
+	Mode       string // "forward" | "fallback"
+	Code       uint32 // forward: gRPC code returned by the handler
+	Msg        string
+	Cancelled  bool   // forward: request context already cancelled
+	Timeout    string `json:",omitempty"` // forward: GRPC-Timeout header of the request (e.g. "1n": the handler's own deadline passes, the request lives on)
+	OKErr      bool   `json:",omitempty"` // forward: the handler returns a non-nil error whose gRPC status says OK
+	Wrapped    bool   `json:",omitempty"` // forward: the handler adds context to its status error with %w
+	RespToo    bool   `json:",omitempty"` // forward: the failing handler returns a response value next to its error
+	MDOpts     bool   `json:",omitempty"` // forward: the caller asks for response metadata (grpc.Header and grpc.Trailer call options)
+	CutErrBody bool   `json:",omitempty"` // forward: the body of an error reply breaks off half-way (the code travels in the head)
+	Renderer   string // "default" | "nothing" | "teapot" | "option-default"
+	Carrier    string // "server" | "mux"
+	HTTP       int    // fallback: HTTP status
+	Stream     bool   // fallback: through NewStream instead of Invoke
+	Body       string // fallback: what the proxy-like reply carries ("empty","text")
 	// reply mode: an arbitrary unary HTTP reply is presented to the client
 	HasGS   bool     `json:",omitempty"` // X-GRPC-Status header present
 	GS      string   `json:",omitempty"` // its value
@@ -257,6 +258,10 @@ func c14Forward(c c14Case, o *Outcome) *Outcome {
 		ch := &httpgrpc.Channel{BaseURL: baseURL, Transport: rtFunc(func(r *http.Request) (*http.Response, error) {
 			rr := *res
 			rr.Body = io.NopCloser(bytes.NewReader(body))
+			if c.CutErrBody && c.Code != 0 && len(body) > 0 {
+				// the error reply's body does not complete (connection cut, a slow error page): the status came in the head
+				rr.Body = bodyReader(body[:len(body)/2], true)
+			}
 			rr.Request = r
 			return &rr, nil
 		})}
@@ -548,13 +553,14 @@ func genC14(t *rapid.T) c14Case {
 			// messages of several lines and other control characters (validation reports, joined errors, stack traces): what
 			// becomes of such a message in an HTTP header is C02's subject, the code has to come through all the same
 			rapid.SampledFrom([]string{"line1\nline2", "a\r\nb", "tab\there", "first: bad\nsecond: worse\n", "\"quoted\"", "back\\slash"})).Draw(t, "msg"),
-		Cancelled: rapid.Bool().Draw(t, "cancelled"),
-		Renderer:  rapid.SampledFrom([]string{"default", "nothing", "teapot", "option-default"}).Draw(t, "renderer"),
-		Carrier:   rapid.SampledFrom([]string{"server", "mux"}).Draw(t, "carrier"),
-		Timeout:   rapid.SampledFrom([]string{"", "", "1n", "0m", "1H"}).Draw(t, "timeout"),
-		Wrapped:   rapid.IntRange(0, 3).Draw(t, "wrapped") == 0,
-		MDOpts:    rapid.IntRange(0, 2).Draw(t, "mdopts") == 0,
-		RespToo:   rapid.IntRange(0, 2).Draw(t, "resptoo") == 0}
+		Cancelled:  rapid.Bool().Draw(t, "cancelled"),
+		Renderer:   rapid.SampledFrom([]string{"default", "nothing", "teapot", "option-default"}).Draw(t, "renderer"),
+		Carrier:    rapid.SampledFrom([]string{"server", "mux"}).Draw(t, "carrier"),
+		Timeout:    rapid.SampledFrom([]string{"", "", "1n", "0m", "1H"}).Draw(t, "timeout"),
+		Wrapped:    rapid.IntRange(0, 3).Draw(t, "wrapped") == 0,
+		CutErrBody: rapid.IntRange(0, 3).Draw(t, "cuterrbody") == 0,
+		MDOpts:     rapid.IntRange(0, 2).Draw(t, "mdopts") == 0,
+		RespToo:    rapid.IntRange(0, 2).Draw(t, "resptoo") == 0}
 }
 
 func init() { registerReplay("C14", propC14) }
